@@ -334,6 +334,8 @@ def run(R):
     # a memo shared between groups (e.g. "the last value seen by this aggregate", whatever its group) lets one group's rows decide
     # what another group's aggregate sees: the same analysis as C15.state, decided here for the isolation clause
     _update_state(R, "C04.state")
+    # every aggregate is computed from exactly its group's values: an INT value is not rounded on its way into a running sum
+    _exact_sums(R, "C04.exact")
     # ---- order
     a = P.adts.get(ENGINE.rstrip(":"))
     a = P.adts.get(AGG + "AggregateExecutionEngine")
@@ -804,6 +806,26 @@ def _slot_creation(R, rid):
         R.ok(rid, "creators", "entries of the group tables are created only by the accessors", "src/execution/aggregate_execution.rs", nontrivial=False)
 
 
+def _exact_sums(R, rid):
+    P = R.prog
+    # exact accumulation: an INT input is accumulated as INT; converting it to REAL before it enters a running sum makes the result
+    # depend on the order in which roundings happen
+    R.rule(rid, "no value enters a running sum (add_to_sum) through an INT -> REAL conversion: INT inputs are accumulated exactly")
+    upf = R.need_fn(AGG + "GroupAggregator::update")
+    adds = [c for c in upf.calls if short(c.name) == AGG + "add_to_sum"]
+    if not adds:
+        R.violation(rid, "update|no-sum", "GroupAggregator::update no longer accumulates through add_to_sum", [upf.loc()])
+    for c in adds:
+        lossy = [o for a_ in c.args for o in F.origins(upf, a_, depth=10) if o.kind == "cast" and o.extra in ("i64->f64", "i64->f32", "f64->i64")]
+        key = "update|add_to_sum@%s" % (F.source_fields(upf, c.args[0], depth=6) or ["?"])[-1]
+        if lossy:
+            R.violation(rid, key + "|converted",
+                        "a value is converted %s before it is added to a running sum: the accumulated REAL rounds in arrival order, so the aggregate "
+                        "of INT inputs depends on the order / split of the input" % lossy[0].extra, [c.loc()])
+        else:
+            R.ok(rid, key, "accumulated in the input's own numeric kind", c.loc())
+
+
 def run_c15(R):
     P = R.prog
     _slot_creation(R, "C15.slot")
@@ -821,22 +843,7 @@ def run_c15(R):
         R.ok("C15.fold", "add_to_sum", "sum' = sum + value for INT (checked), REAL and INTERVAL (checked)", add.loc())
     else:
         R.violation("C15.fold", "add_to_sum", "the running sum is not `sum + value` for all three numeric kinds (callees %s)" % cl, [add.loc()])
-    # exact accumulation: an INT input is accumulated as INT; converting it to REAL before it enters a running sum makes the result
-    # depend on the order in which roundings happen
-    R.rule("C15.exact", "no value enters a running sum (add_to_sum) through an INT -> REAL conversion: INT inputs are accumulated exactly")
-    upf = R.need_fn(AGG + "GroupAggregator::update")
-    adds = [c for c in upf.calls if short(c.name) == AGG + "add_to_sum"]
-    if not adds:
-        R.violation("C15.exact", "update|no-sum", "GroupAggregator::update no longer accumulates through add_to_sum", [upf.loc()])
-    for c in adds:
-        lossy = [o for a_ in c.args for o in F.origins(upf, a_, depth=10) if o.kind == "cast" and o.extra in ("i64->f64", "i64->f32", "f64->i64")]
-        key = "update|add_to_sum@%s" % (F.source_fields(upf, c.args[0], depth=6) or ["?"])[-1]
-        if lossy:
-            R.violation("C15.exact", key + "|converted",
-                        "a value is converted %s before it is added to a running sum: the accumulated REAL rounds in arrival order, so the aggregate "
-                        "of INT inputs depends on the order / split of the input" % lossy[0].extra, [c.loc()])
-        else:
-            R.ok("C15.exact", key, "accumulated in the input's own numeric kind", c.loc())
+    _exact_sums(R, "C15.exact")
     # lazy default
     df = R.need_fn(AGG + "GroupAggregator::default")
     uses = []
